@@ -634,6 +634,42 @@ pub fn long_elements() -> Vec<Vec<u8>> {
     out
 }
 
+/// Directed family: everything `#` can introduce. Non-decimal literals with every digit character
+/// (0-9, A-G, both cases) behind every radix letter, alone and after a valid digit (the class
+/// alphabet has only digits that are valid in every radix); definite-length blocks with every width
+/// 1..9 of the length field (zero padded), exact, one byte short and one byte long; `#` followed by
+/// every other letter and ten digits (a length-field "digit" beyond 9).
+pub fn hash_family() -> Vec<Vec<u8>> {
+    let mut out = vec![];
+    for r in b"HhQqBb" {
+        for d in b"0123456789ABCDEFGabcdefgZ_" {
+            for lead in [&b""[..], b"1", b"01"] {
+                for tail in [&b""[..], b",1", b" ;E"] {
+                    out.push([&b"A #"[..], &[*r], lead, &[*d], tail].concat());
+                }
+            }
+        }
+    }
+    for w in 1..=9usize {
+        for (len, body) in [(0usize, &b""[..]), (3, b"a;b"), (7, b"x,y\"z'w")] {
+            let hdr = format!("#{w}{:0width$}", len, width = w);
+            out.push([&b"A "[..], hdr.as_bytes(), body].concat());
+            out.push([&b"A "[..], hdr.as_bytes(), body, b",1"].concat());
+            out.push([&b"A 1,"[..], hdr.as_bytes(), body, b";E"].concat());
+            if len > 0 {
+                out.push([&b"A "[..], hdr.as_bytes(), &body[..len - 1]].concat());
+            }
+            out.push([&b"A "[..], hdr.as_bytes(), body, b"x"].concat());
+        }
+    }
+    for l in b"ACDEFGIJKLMNOPRSTUVWXYZacdefgz" {
+        out.push([&b"A #"[..], &[*l], b"0000000001x"].concat());
+        out.push([&b"A #"[..], &[*l], b"0000000001x,1"].concat());
+        out.push([&b"A #"[..], &[*l], b"1"].concat());
+    }
+    out
+}
+
 /// Directed family: every byte value 0..=255 substituted at every position of a set of well-formed
 /// messages (class-representative alphabets cannot see a mis-drawn class boundary such as 0x60).
 pub fn byte_substitutions() -> Vec<Vec<u8>> {
@@ -779,6 +815,7 @@ pub fn run(ctx: &'static Ctx) -> i32 {
     let mut directed: Vec<Vec<u8>> = long_elements();
     let n_long = directed.len();
     directed.extend(byte_substitutions());
+    directed.extend(hash_family());
     let n_dir = directed.len() as u64;
     let accs = par_sweep(
         ctx,
@@ -807,7 +844,7 @@ pub fn run(ctx: &'static Ctx) -> i32 {
     c.insert("directed_long_element_inputs".into(), json!(n_long));
     c.insert("directed_byte_substitution_inputs".into(), json!(n_dir as usize - n_long));
     c.insert("distinct_nontrivial".into(), json!(stats.accepted_multi + stats.rejected_listed));
-    c.insert("rule".into(), json!(format!("(a) all {a_evals} strings of length <= {n} over one byte per lexical class ({} symbols: letters incl. E/H, digits 1/0/9, SP, `:;,?*#\"'().+-/_@!`, NL, TAB, CR, FF, NUL, 0x80); (d) {d_evals} contextual strings = {} prefixes that place each data reader at offset 0 x every continuation of length <= {m} over the data alphabet; (b) {nders} grammar derivations (headers simple/compound/common, command/query, 0..2 data elements from {} representatives of all seven data types incl. separators inside strings/blocks/expressions, 5 white-space placements, 3 terminator forms, 2-unit messages, indefinite blocks) and (c) {ncorr} single-point corruptions (lengthen mnemonic/character data/suffix to 13, drop a closing quote, truncate a block, non-digit in a block length, remove NL of #0 block, 0x80 at every non-block position, extra `:` or `,` at every position, delete a data separator); (e) directed families beyond the length bound: mnemonics, character data, suffixes, numbers, strings, expressions and blocks of 32 lengths from 11 to 65549 (crossing 12/13, 255/256, 268/269, 511/512, 65535/65536), and every byte value 0..255 substituted at every position of 8 well-formed messages. Each input is classified by the three-valued reference lex488: accepted => Tokenizer stream must equal the 488.2 decomposition element by element and byte range by byte range, and (if every header exists in the universal tree) Node::run must succeed with handlers seeing exactly those data elements; listed violation => the tokenizer (lexical classes) or Node::run (structural classes) must refuse with an error in -100..-199; otherwise no verdict. Distinct non-trivial = accepted inputs with >= 2 elements + inputs in a listed violation class", SIGMA_LEX.len(), prefixes.len(), DATA_ELEMS.len())));
+    c.insert("rule".into(), json!(format!("(a) all {a_evals} strings of length <= {n} over one byte per lexical class ({} symbols: letters incl. E/H, digits 1/0/9, SP, `:;,?*#\"'().+-/_@!`, NL, TAB, CR, FF, NUL, 0x80); (d) {d_evals} contextual strings = {} prefixes that place each data reader at offset 0 x every continuation of length <= {m} over the data alphabet; (b) {nders} grammar derivations (headers simple/compound/common, command/query, 0..2 data elements from {} representatives of all seven data types incl. separators inside strings/blocks/expressions, 5 white-space placements, 3 terminator forms, 2-unit messages, indefinite blocks) and (c) {ncorr} single-point corruptions (lengthen mnemonic/character data/suffix to 13, drop a closing quote, truncate a block, non-digit in a block length, remove NL of #0 block, 0x80 at every non-block position, extra `:` or `,` at every position, delete a data separator); (e) directed families beyond the length bound: mnemonics, character data, suffixes, numbers, strings, expressions and blocks of 32 lengths from 11 to 65549 (crossing 12/13, 255/256, 268/269, 511/512, 65535/65536), every byte value 0..255 substituted at every position of 8 well-formed messages, and everything `#` can introduce (every digit character behind every radix letter, block length fields of every width 1..9, `#` followed by any other letter). Each input is classified by the three-valued reference lex488: accepted => Tokenizer stream must equal the 488.2 decomposition element by element and byte range by byte range, and (if every header exists in the universal tree) Node::run must succeed with handlers seeing exactly those data elements; listed violation => the tokenizer (lexical classes) or Node::run (structural classes) must refuse with an error in -100..-199; otherwise no verdict. Distinct non-trivial = accepted inputs with >= 2 elements + inputs in a listed violation class", SIGMA_LEX.len(), prefixes.len(), DATA_ELEMS.len())));
     c.insert("exhaustive".into(), json!(true));
     c.insert("accepted_wellformed".into(), json!(stats.accepted));
     c.insert("wellformed_checked_end_to_end".into(), json!(stats.run_checked));
